@@ -190,17 +190,18 @@ def check_loop(res: RuleResult, lang: str, file: str, fname: str, line: int, tes
             f = Finding("D1", file, line, fname, "", f"cursor `{cur}` is not advanced in the chunk loop", witness="any field wider than one chunk", tag=f"{lang}:{fname}:advance-{cur}")
             f.part = part
             res.bad(f)
-        elif e.args[0] != c_val and e.args[0] != V("c"):
+        elif e.args[0] != c_val:
             f = Finding("D1", file, line, fname, show(e.args[0]), f"cursor `{cur}` advances by `{show(e.args[0])}`, not by the chunk size: stream and value cursors go out of step", witness="uint16 at bit offset 3", tag=f"{lang}:{fname}:advance-{cur}")
             f.part = part
             res.bad(f)
     return c_val
 
 
-def obligations(res: RuleResult, rule_id: str, lang: str, file: str, fname: str, line: int, c_val: Poly) -> None:
+def obligations(res: RuleResult, rule_id: str, lang: str, file: str, fname: str, line: int, c_val: Poly, facts: Optional[Facts] = None, under: str = "") -> None:
     """E1: from j < n (integers): 1 <= c <= 8, mod8(i)+c <= 8, mod8(j)+c <= 8, c <= n-j."""
-    facts = Facts()
+    facts = facts or Facts()
     facts.assume(n_ - j_, 1, float("inf"), "loop test j < n over integers")
+    facts.assume(j_ - n_, -float("inf"), -1, "loop test j < n over integers")
     obl = [
         ("c >= 1 (the loop makes progress)", lambda: prove_ge(c_val, C(1), facts), "the loop does not terminate: compiler/codec hangs"),
         ("c <= 8", lambda: prove_le(c_val, C(8), facts), "a chunk wider than a byte: mask >= 256"),
@@ -212,7 +213,7 @@ def obligations(res: RuleResult, rule_id: str, lang: str, file: str, fname: str,
         ok, why = fn()
         res.inst(part=lang, function=fname, obligation=text, chunk=show(c_val), proved=ok, argument=why[:160])
         if not ok:
-            f = Finding(rule_id, file, line, fname, f"c = {show(c_val)}", f"obligation `{text}` fails for the chunk size `{show(c_val)}` ({why})", witness=wit, tag=f"{lang}:{fname}:{text.split(' (')[0]}")
+            f = Finding(rule_id, file, line, fname, f"c = {show(c_val)}", f"obligation `{text}` fails for the chunk size `{show(c_val)}`{(' on the path under ' + under) if under else ''} ({why})", witness=wit, tag=f"{lang}:{fname}:{text.split(' (')[0]}")
             f.part = lang
             res.bad(f)
 
@@ -242,12 +243,282 @@ def _planner(repo: Repo):
 
 
 def _chunk_of_loop_py(lw: PyLower, lp: ast.While, cursor_i: str) -> Tuple[bool, Optional[Poly], List[Effect]]:
+    """Roles are found from the loop itself, not from local names: the counter
+    is the name on the left of the `<` test, the bound is its right side, the
+    chunk is what the counter advances by."""
     t = lp.test
-    test_ok = isinstance(t, ast.Compare) and len(t.ops) == 1 and isinstance(t.ops[0], ast.Lt) and src_of(t.left) == "j"
+    test_ok = isinstance(t, ast.Compare) and len(t.ops) == 1 and isinstance(t.ops[0], ast.Lt) and isinstance(t.left, ast.Name)
+    if not test_ok:
+        # `n > j`
+        if isinstance(t, ast.Compare) and len(t.ops) == 1 and isinstance(t.ops[0], ast.Gt) and isinstance(t.comparators[0], ast.Name):
+            t = ast.Compare(left=t.comparators[0], ops=[ast.Lt()], comparators=[t.left])
+            test_ok = True
+    if not test_ok:
+        return False, None, []
+    jname = t.left.id  # type: ignore[attr-defined]
+    lw.names[jname] = "j"
+    right = t.comparators[0]
+    if isinstance(right, ast.Name):
+        lw.names[right.id] = "n"
     env: Dict[str, Poly] = {}
     effects: List[Effect] = []
     lw._block(lp.body, env, effects, [])
-    return test_ok, env.get("c"), effects
+    adv = [e for e in effects if e.kind == "attr" and e.op == "+=" and e.name == "j"]
+    cv = adv[0].args[0] if len(adv) == 1 else None
+    return test_ok, cv, effects
+
+
+def _loop_roles(lp: ast.While) -> Tuple[Optional[str], Optional[str]]:
+    t = lp.test
+    if isinstance(t, ast.Compare) and len(t.ops) == 1 and isinstance(t.ops[0], ast.Lt) and isinstance(t.left, ast.Name):
+        r = t.comparators[0]
+        return t.left.id, (r.id if isinstance(r, ast.Name) else None)
+    if isinstance(t, ast.Compare) and len(t.ops) == 1 and isinstance(t.ops[0], ast.Gt) and isinstance(t.comparators[0], ast.Name):
+        return t.comparators[0].id, (t.left.id if isinstance(t.left, ast.Name) else None)
+    return None, None
+
+
+def _inits_before(fn: ast.FunctionDef, lp: ast.AST) -> Dict[str, str]:
+    """name -> source of the last value assigned before the loop (top level)."""
+    out: Dict[str, str] = {}
+    for st in fn.body:
+        if st is lp:
+            break
+        if isinstance(st, ast.AnnAssign) and isinstance(st.target, ast.Name) and st.value is not None:
+            out[st.target.id] = src_of(st.value)
+        elif isinstance(st, ast.Assign) and len(st.targets) == 1:
+            tg = st.targets[0]
+            if isinstance(tg, ast.Name):
+                out[tg.id] = src_of(st.value)
+            elif isinstance(tg, ast.Tuple) and isinstance(st.value, ast.Tuple) and len(tg.elts) == len(st.value.elts):
+                for a, v in zip(tg.elts, st.value.elts):
+                    if isinstance(a, ast.Name):
+                        out[a.id] = src_of(v)
+    return out
+
+
+class LoopFacts:
+    def __init__(self) -> None:
+        self.ok = False
+        self.why = ""
+        self.line = 0
+        self.counter: Optional[str] = None
+        self.bound_src: Optional[str] = None
+        self.counter_init: Optional[str] = None
+        self.bound_init: Optional[str] = None
+        self.bodies: List[Dict[str, Any]] = []  # per body path: guards, c, i_adv, calls, stores, path
+
+
+def _canon(p: Poly, subs: List[Tuple[Any, Poly]]) -> Poly:
+    from .rules_d2 import _replace_atom
+
+    for atom, by in subs:
+        p = _replace_atom(p, atom, by)
+    return p
+
+
+def chunk_loop(flow: Any, fn: ast.FunctionDef, cursor: str) -> LoopFacts:
+    """The single `while counter < bound` loop of a chunking function, from the
+    path engine: per body path the chunk size (what the counter advances by),
+    the stream cursor advance, the calls and the direct stream stores, all in
+    the canonical variables i (stream cursor), j (counter), n (bound)."""
+    from .pyflow import single_atom as _sa
+
+    lf = LoopFacts()
+    paths = flow.run(fn)
+    loops = []
+    for p in paths:
+        for e in p.effects:
+            if e.kind == "loop" and e.name == "while":
+                loops.append((p, e))
+    nodes = {id(e.node) for _, e in loops}
+    if len(nodes) != 1:
+        lf.why = f"not a single chunk loop ({len(nodes)} while loops on the paths)"
+        return lf
+    p0, lp = loops[0]
+    st = lp.node
+    lf.line = getattr(st, "lineno", 0)
+    jn, bn = _loop_roles(st)
+    if jn is None:
+        lf.why = f"loop test `{src_of(st.test)}` is not `counter < bound`"
+        return lf
+    lf.counter = jn
+    t = st.test
+    right = t.comparators[0] if isinstance(t.ops[0], ast.Lt) else t.left
+    lf.bound_src = src_of(right)
+    inits = _inits_before(fn, st)
+    lf.counter_init = inits.get(jn)
+    lf.bound_init = inits.get(bn) if bn is not None else src_of(right)
+    jsym = V(jn + lp.op)
+    for bp in lp.sub or []:
+        if bp.done == "raise":
+            continue
+        bound = flow._pure(right, bp)
+        subs: List[Tuple[Any, Poly]] = [(("var", jn + lp.op), j_), (("var", cursor + lp.op), i_)]
+        ba = _sa(bound)
+        if ba is not None:
+            subs.append((ba, n_))
+        newj = bp.env.get(jn)
+        cval = _canon(newj - jsym, subs) if newj is not None else None
+        i_adv = None
+        for e in bp.effects:
+            if e.kind == "setattr" and e.name == cursor and "old" in e.kw:
+                i_adv = _canon(e.args[-1] - e.kw["old"], subs) if i_adv is None else i_adv + _canon(e.args[-1] - e.kw["old"], subs)
+            elif e.kind == "store" and e.name == cursor and e.op == "+=":
+                i_adv = _canon(e.args[1], subs) if i_adv is None else i_adv + _canon(e.args[1], subs)
+        calls = [(e.name, [_canon(a, subs) for a in e.args], e) for e in bp.effects if e.kind == "call"]
+        stores = [(e, [_canon(a, subs) for a in e.args]) for e in bp.effects if e.kind == "store" and e.name in ("s", "ctx.s")]
+        others = [e for e in bp.effects if e.kind in ("loop", "other")]
+        lits = []
+        for k, tr in bp.guards:
+            if k[0] == "cmp":
+                lits.append((k[1], _canon(k[2], subs), tr))
+        lf.bodies.append({"path": bp, "c": cval, "i_adv": i_adv, "calls": calls, "stores": stores, "others": others, "lits": lits, "guards": bp.guard_text()})
+    lf.ok = bool(lf.bodies)
+    if not lf.ok:
+        lf.why = "loop body has no path"
+    return lf
+
+
+def facts_of(body: Dict[str, Any]) -> Facts:
+    facts = Facts()
+    for op, d, tr in body["lits"]:
+        # d op 0 with op in <, <=, == (integers)
+        if op == "<":
+            facts.assume(d, -float("inf"), -1, "branch") if tr else facts.assume(d, 0, float("inf"), "branch")
+        elif op == "<=":
+            facts.assume(d, -float("inf"), 0, "branch") if tr else facts.assume(d, 1, float("inf"), "branch")
+        elif op == "==" and tr:
+            facts.assume(d, 0, 0, "branch")
+    return facts
+
+
+def judge_loop(res: RuleResult, lang: str, file: str, fname: str, lf: LoopFacts, enc_prim: str, dec_prim: str, enc_key: Any, arg_pos: Tuple[Optional[int], int, int]) -> Optional[List[Dict[str, Any]]]:
+    """D1 part of the loop: cursors advance together, dispatch by direction,
+    no unmasked direct store.  Returns the body summaries for E1."""
+    from .rules_d2 import truth
+
+    part = lang
+    if not lf.ok:
+        res.unsure(f"D1: {lang}:{fname}: {lf.why}")
+        return None
+    res.inst(part=part, function=fname, loop=True, counter=lf.counter, bound=lf.bound_src, chunks=sorted({show(b["c"]) for b in lf.bodies if b["c"] is not None}))
+
+    def bad(tag: str, msg: str, construct: str = "", witness: str = "") -> None:
+        f = Finding("D1", file, lf.line, fname, construct, msg, witness=witness, tag=f"{lang}:{fname}:{tag}")
+        f.part = part
+        res.bad(f)
+
+    for b in lf.bodies:
+        c = b["c"]
+        if c is None:
+            res.unsure(f"D1: {lang}:{fname}: counter value after one iteration not found")
+            continue
+        if c == C(0):
+            bad("advance-j", f"cursor `{lf.counter}` is not advanced in the chunk loop", witness="any field wider than one chunk")
+        if b["i_adv"] is None:
+            bad("advance-i", "the stream cursor is not advanced in the chunk loop", witness="any field wider than one chunk")
+        elif b["i_adv"] != c:
+            bad("advance-i", f"the stream cursor advances by `{show(b['i_adv'])}`, the field counter by `{show(c)}`: stream and value cursors go out of step", construct=show(b["i_adv"]), witness="uint16 at bit offset 3")
+        for e, args in b["stores"]:
+            idx, val = args
+            parts = _and_parts(val)
+            masked = parts is not None and any(_strip_trunc_mask(q) in (SPEC["encode"]["mask"],) or _strip_trunc_mask(q) == spec_mask(mod8(i_)).subst("c", c) for q in parts)
+            if e.op != "|=" or not masked:
+                f = Finding("D1", file, getattr(e.node, "lineno", lf.line), fname, repr(e), f"the chunk loop stores into the stream with `{e.op}` of a value that is not `(...) & mask` (path: {b['guards'] or 'always'}): bits beyond the field's width (sign extension, out-of-range values) reach the neighbouring field or the padding", witness="int12 holding -1 at a byte-aligned position followed by another field", tag=f"{lang}:{fname}:unmasked-store")
+                f.part = part
+                res.bad(f)
+        for e in b["others"]:
+            res.unsure(f"D1: {lang}:{fname}: `{e.name}` inside the chunk loop is outside the enumerated forms")
+        enc = truth(b["path"], enc_key)
+        encs = [x for x in b["calls"] if x[0] == enc_prim]
+        decs = [x for x in b["calls"] if x[0] == dec_prim]
+        ipos, jpos, cpos = arg_pos
+        if enc is None:
+            if encs or decs or not b["stores"]:
+                bad("dispatch", "encode/decode is not selected by the encode flag", construct=str([x[0] for x in b["calls"]]), witness="encode() reads the buffer instead of writing it")
+            continue
+        mine, other = (encs, decs) if enc else (decs, encs)
+        if other or len(mine) != 1:
+            if not mine and not other and b["stores"]:
+                continue  # direct stores judged above
+            bad("dispatch", f"on the {'encode' if enc else 'decode'} path the chunk is handled by {[x[0] for x in b['calls']]}, expected exactly one {enc_prim if enc else dec_prim}", construct=str([x[0] for x in b["calls"]]), witness="encode() reads the buffer instead of writing it")
+            continue
+        a = mine[0][1]
+        got_j, got_c = (a[jpos] if jpos < len(a) else None), (a[cpos] if cpos < len(a) else None)
+        if got_j != j_ or got_c != c or (ipos is not None and (ipos >= len(a) or a[ipos] != i_)):
+            bad(f"dispatch:{mine[0][0]}", f"{mine[0][0]} is not called with (stream cursor, field counter, chunk size) of this iteration: got ({show(a[ipos]) if ipos is not None and ipos < len(a) else '-'}, {show(got_j) if got_j is not None else None}, {show(got_c) if got_c is not None else None})", construct=str([show(x) for x in a]), witness="uint16 at bit offset 3")
+    return lf.bodies
+
+
+def _loop_chunk_names(lw: PyLower, lp: ast.While, cv: Optional[Poly]) -> Dict[str, Poly]:
+    """locals of the loop body whose value is the chunk size"""
+    env: Dict[str, Poly] = {}
+    eff: List[Effect] = []
+    lw._block(lp.body, env, eff, [])
+    return {k: v for k, v in env.items() if cv is not None and v == cv}
+
+
+def _chunk_of_loop_go(glw: GoLower, lp: Any) -> Tuple[bool, Optional[Poly], List[Effect]]:
+    c = lp.cond
+    while c is not None and c.k == "paren":
+        c = c.x
+    ok = c is not None and c.k == "bin" and c.op == "<" and c.l.k == "id" and lp.init is not None and lp.init.k == "assign" and go_src(lp.init.lhs[0]) == c.l.name and go_src(lp.init.rhs[0]) == "0"
+    if not ok:
+        return False, None, []
+    glw.names[c.l.name] = "j"
+    if c.r.k == "id":
+        glw.names[c.r.name] = "n"
+    env: Dict[str, Poly] = {}
+    eff: List[Effect] = []
+    stmts = list(lp.body.stmts) + ([lp.post] if lp.get("post") is not None else [])
+    glw._block(stmts, env, eff, [])
+    adv = [e for e in eff if e.kind == "attr" and e.op == "+=" and e.name == "j"]
+    return True, (adv[0].args[0] if len(adv) == 1 else None), eff
+
+
+def _no_cursor_move(res: RuleResult, lang: str, file: str, fname: str, line: int, effects: List[Effect]) -> None:
+    """the chunk loop analysis treats the single-chunk functions as not moving the stream cursor"""
+    for e in effects:
+        if e.kind == "attr" and e.name == "i":
+            f = Finding("D1", file, getattr(e.node, "lineno", line), fname, repr(e), "the single-chunk function moves the stream cursor itself: the loop advances it a second time", witness="every field after the first chunk", tag=f"{lang}:{fname}:cursor-move")
+            f.part = lang
+            res.bad(f)
+
+
+def loop_sites(repo: Repo) -> List[Dict[str, Any]]:
+    """The three chunk loops with their path-engine configuration."""
+    from .flows import go_runtime, py_runtime
+    from .pyflow import PyFlow
+
+    out: List[Dict[str, Any]] = []
+    enc_key = ("truthy", V("is_encode"))
+    try:
+        L = py_runtime(repo)
+        out.append({"lang": "py", "file": BP, "fname": "process_base_type", "fn": L.func("process_base_type"), "flow": L.flow(None, primitives=("encode_single_byte", "decode_single_byte"), no_havoc=("encode_single_byte", "decode_single_byte"), names={"ctx.i": "i", "ctx.s": "s", "ctx.is_encode": "is_encode"}), "enc": "encode_single_byte", "dec": "decode_single_byte", "pos": (None, 3, 4), "enc_key": enc_key})
+    except Inconclusive as e:
+        out.append({"lang": "py", "error": str(e)})
+    try:
+        G = go_runtime(repo)
+        out.append({"lang": "go", "file": GO_RT, "fname": "processBaseType", "fn": G.func("processBaseType"), "flow": G.flow(None, primitives=("encodeSingleByte", "decodeSingleByte"), no_havoc=("encodeSingleByte", "decodeSingleByte"), names={"ctx.i": "i", "ctx.s": "s", "ctx.isEncode": "is_encode"}), "enc": "encodeSingleByte", "dec": "decodeSingleByte", "pos": (None, 3, 4), "enc_key": enc_key})
+    except Inconclusive as e:
+        out.append({"lang": "go", "error": str(e)})
+    try:
+        m = get_model(repo)
+        fm = m.mod("renderer/formatter.py")
+        F = fm.classes.get("Formatter")
+        if F is None or "format_op_mode_endecode_single_type" not in F.methods:
+            raise Inconclusive("Formatter.format_op_mode_endecode_single_type vanished")
+        methods = {k: v.node for k, v in F.methods.items()}
+
+        def inl(name: str, fn: ast.FunctionDef) -> bool:
+            return not name.startswith(("format_", "post_format")) and "raise NotImplementedError" not in src_of(fn)
+
+        flow = PyFlow(funcs={}, methods=methods, names={"i[0]": "i"}, primitives=("format_op_mode_encode_single_byte", "format_op_mode_decode_single_byte"), inline_filter=inl, pure=("nbits",))
+        out.append({"lang": "planner", "file": FMT, "fname": "Formatter.format_op_mode_endecode_single_type", "fn": methods["format_op_mode_endecode_single_type"], "flow": flow, "enc": "format_op_mode_encode_single_byte", "dec": "format_op_mode_decode_single_byte", "pos": (2, 3, 4), "enc_key": enc_key})
+    except Inconclusive as e:
+        out.append({"lang": "planner", "error": str(e)})
+    return out
 
 
 @rule("D1", "single-chunk encode/decode of every implementation equals the specification normal form; both cursors advance by the chunk")
@@ -260,31 +531,34 @@ def d1(repo: Repo) -> RuleResult:
         if fn is None:
             res.unsure(f"D1: bp.py:{fname} vanished")
             continue
+        ps = [a.arg for a in fn.args.args]
+        if len(ps) == 5:
+            lw.names[ps[3]], lw.names[ps[4]] = "j", "c"
         eff, _ = lw.summarize(fn)
         check_chunk(res, "py", BP, direction, fname, fn.lineno, eff, "bp_get_byte", "bp_set_byte")
-    pb = funcs.get("process_base_type")
-    if pb is None:
-        res.unsure("D1: bp.py:process_base_type vanished")
-    else:
-        loops = [n for n in ast.walk(pb) if isinstance(n, ast.While)]
-        if len(loops) != 1:
-            res.unsure("D1: py:process_base_type is not a single chunk loop (shape gate)")
-        else:
-            test_ok, cv, eff = _chunk_of_loop_py(lw, loops[0], "i")
-            # j < nbits
-            check_loop(res, "py", BP, "process_base_type", pb.lineno, test_ok, cv, eff)
-            # dispatch to encode/decode by ctx.is_encode
-            psb = funcs.get("process_single_byte")
-            if psb is not None:
-                t = src_of(psb)
-                ok = "if ctx.is_encode:" in t.replace("\n", " ") or "ctx.is_encode" in t
-                calls = [(e.name, e.guard) for e in lw.summarize(psb)[0] if e.kind == "call"]
-                res.inst(part="py", function="process_single_byte", dispatch=calls)
-                want = {("encode_single_byte", ("ctx.is_encode",)), ("decode_single_byte", ("not (ctx.is_encode)",))}
-                if {(n, tuple(g)) for n, g in calls} != want:
-                    f = Finding("D1", BP, psb.lineno, "process_single_byte", str(calls), "encode/decode dispatch is not `encode when ctx.is_encode else decode`", witness="encode() reads the buffer instead of writing it", tag="py:process_single_byte:dispatch")
-                    f.part = "py"
-                    res.bad(f)
+        _no_cursor_move(res, "py", BP, fname, fn.lineno, eff)
+    sites = {x["lang"]: x for x in loop_sites(repo)}
+    for lang in ("py", "go", "planner"):
+        st_ = sites.get(lang)
+        if st_ is None or "error" in st_:
+            res.unsure(f"D1: {lang}: chunk loop: {st_['error'] if st_ else 'site missing'}")
+            continue
+        try:
+            lf = chunk_loop(st_["flow"], st_["fn"], "i")
+        except Inconclusive as e:
+            res.unsure(f"D1: {lang}:{st_['fname']}: {e}")
+            continue
+        judge_loop(res, lang, st_["file"], st_["fname"], lf, st_["enc"], st_["dec"], st_["enc_key"], st_["pos"])
+        if lf.ok and lf.counter_init != "0":
+            res.unsure(f"D1: {lang}:{st_['fname']}: the chunk counter `{lf.counter}` is not initialised with 0 before the loop (found `{lf.counter_init}`)")
+        if lang == "planner" and lf.ok and lf.bound_init != "t.nbits()":
+            bound = lf.bound_init
+            if bound is not None and "nbits" in bound:
+                f = Finding("D1", FMT, st_["fn"].lineno, st_["fname"], bound, f"planner: the chunk loop runs to `{bound}`, not to the type's bit size t.nbits()", witness="uint12 with -O: bits beyond the field are emitted / dropped", tag="planner:bound")
+                f.part = "planner"
+                res.bad(f)
+            else:
+                res.unsure(f"D1: planner: loop bound `{bound}` not recognised")
     res.note("py: " + "; ".join(sorted(set(lw.notes))))
 
     # ---------------- Go runtime
@@ -293,26 +567,12 @@ def d1(repo: Repo) -> RuleResult:
         glw = GoLower(g.funcs, names={"ctx.i": "i", "ctx.s": "s", "nbits": "n"})
         for direction, fname in (("encode", "encodeSingleByte"), ("decode", "decodeSingleByte")):
             fn = g.func(fname)
+            gps = [p_.name for p_ in fn.params]
+            if len(gps) == 5:
+                glw.names[gps[3]], glw.names[gps[4]] = "j", "c"
             eff, _ = glw.summarize(fn)
             check_chunk(res, "go", GO_RT, direction, fname, fn.line, eff, "BpGetByte", "BpSetByte")
-        pbt = g.func("processBaseType")
-        loops = [s for s in pbt.body.stmts if s.k == "for"]
-        if len(loops) != 1:
-            res.unsure("D1: go:processBaseType is not a single chunk loop (shape gate)")
-        else:
-            lp = loops[0]
-            test_ok = lp.cond is not None and lp.cond.k == "bin" and lp.cond.op == "<" and go_src(lp.cond.l) == "j" and lp.init is not None and go_src(lp.init.rhs[0]) == "0"
-            env: Dict[str, Poly] = {}
-            eff2: List[Effect] = []
-            glw._block(lp.body.stmts, env, eff2, [])
-            check_loop(res, "go", GO_RT, "processBaseType", pbt.line, test_ok, env.get("c"), eff2)
-        psb = g.func("processSingleByte")
-        calls = [(e.name, tuple(e.guard)) for e in glw.summarize(psb)[0] if e.kind == "call"]
-        res.inst(part="go", function="processSingleByte", dispatch=calls)
-        if set(calls) != {("encodeSingleByte", ("ctx.isEncode",)), ("decodeSingleByte", ("not (ctx.isEncode)",))}:
-            f = Finding("D1", GO_RT, psb.line, "processSingleByte", str(calls), "encode/decode dispatch is not `encode when ctx.isEncode else decode`", tag="go:processSingleByte:dispatch")
-            f.part = "go"
-            res.bad(f)
+            _no_cursor_move(res, "go", GO_RT, fname, fn.line, eff)
         res.note("go: " + "; ".join(sorted(set(glw.notes))))
     except Inconclusive as e:
         res.unsure(f"D1: go runtime: {e}")
@@ -351,34 +611,7 @@ def d1(repo: Repo) -> RuleResult:
                     f = Finding("D1", FMT, fn.lineno, f"Formatter.{fname}", f"{k2} = {show(got[k2])}", f"planner {direction}: `{k2}` is `{show(got[k2])}`, the layout rule requires `{show(w)}`", witness=wit[k2] + " with -O", tag=f"planner:{fname}:{k2}")
                     f.part = "planner"
                     res.bad(f)
-        st = pfuncs.get("format_op_mode_endecode_single_type")
-        if st is None:
-            res.unsure("D1: planner loop function vanished")
-        else:
-            loops = [n for n in ast.walk(st) if isinstance(n, ast.While)]
-            if len(loops) != 1:
-                res.unsure("D1: planner: not a single chunk loop (shape gate)")
-            else:
-                test_ok, cv, eff = _chunk_of_loop_py(plw, loops[0], "i")
-                check_loop(res, "planner", FMT, "Formatter.format_op_mode_endecode_single_type", st.lineno, test_ok, cv, eff)
-                # j, n = 0, t.nbits()
-                txt = src_of(st)
-                if "j, n = (0, t.nbits())" not in txt and not ("j = 0" in txt and "n = t.nbits()" in txt):
-                    res.unsure("D1: planner: `j, n = 0, t.nbits()` initialisation not recognised")
-                calls = {}
-                for nn in ast.walk(loops[0]):
-                    if isinstance(nn, ast.Call) and isinstance(nn.func, ast.Attribute) and nn.func.attr in ("format_op_mode_encode_single_byte", "format_op_mode_decode_single_byte"):
-                        from .guards import facts_at
-
-                        conds = {("" if t2 else "not ") + src_of(e2) for e2, t2 in facts_at(nn, st) if "is_encode" in src_of(e2)}
-                        calls[nn.func.attr] = (conds, [src_of(a2) for a2 in nn.args])
-                res.inst(part="planner", function="format_op_mode_endecode_single_type", dispatch={k2: (sorted(v[0]), v[1]) for k2, v in calls.items()})
-                want_calls = {"format_op_mode_encode_single_byte": {"is_encode"}, "format_op_mode_decode_single_byte": {"not is_encode"}}
-                for k2, cond in want_calls.items():
-                    if k2 not in calls or calls[k2][0] != cond or calls[k2][1] != ["t", "chain", "i[0]", "j", "c"]:
-                        f = Finding("D1", FMT, st.lineno, "Formatter.format_op_mode_endecode_single_type", str(calls.get(k2)), f"planner: {k2} is not called as (t, chain, i[0], j, c) under `{sorted(cond)}`", tag=f"planner:dispatch:{k2}")
-                        f.part = "planner"
-                        res.bad(f)
+        pass
     except Inconclusive as e:
         res.unsure(f"D1: planner: {e}")
     return res
@@ -387,52 +620,29 @@ def d1(repo: Repo) -> RuleResult:
 @rule("E1", "chunk size obligations: 1 <= c <= 8, the chunk fits both bytes, never beyond the field")
 def e1(repo: Repo) -> RuleResult:
     res = RuleResult("E1", floor=15)
-    # Python runtime
-    m, bp, funcs, lw = _py_runtime(repo)
-    pb = funcs.get("process_base_type")
-    if pb is not None:
-        loops = [n for n in ast.walk(pb) if isinstance(n, ast.While)]
-        if len(loops) == 1:
-            ok, cv, _ = _chunk_of_loop_py(lw, loops[0], "i")
-            if cv is not None:
-                obligations(res, "E1", "py", BP, "process_base_type", pb.lineno, cv)
-            else:
-                res.unsure("E1: py chunk size not found")
-        else:
-            res.unsure("E1: py chunk loop not found")
-    else:
-        res.unsure("E1: bp.py:process_base_type vanished")
-    # Go runtime
-    try:
-        g = get_go(repo)
-        glw = GoLower(g.funcs, names={"ctx.i": "i", "ctx.s": "s", "nbits": "n"})
-        pbt = g.func("processBaseType")
-        loops = [s for s in pbt.body.stmts if s.k == "for"]
-        if len(loops) == 1:
-            env: Dict[str, Poly] = {}
-            eff2: List[Effect] = []
-            glw._block(loops[0].body.stmts, env, eff2, [])
-            if env.get("c") is not None:
-                obligations(res, "E1", "go", GO_RT, "processBaseType", pbt.line, env["c"])
-            else:
-                res.unsure("E1: go chunk size not found")
-        else:
-            res.unsure("E1: go chunk loop not found")
-    except Inconclusive as e:
-        res.unsure(f"E1: go: {e}")
-    # planner
-    try:
-        m2, fm, pfuncs, plw = _planner(repo)
-        st = pfuncs.get("format_op_mode_endecode_single_type")
-        loops = [n for n in ast.walk(st) if isinstance(n, ast.While)] if st is not None else []
-        if len(loops) == 1:
-            ok, cv, _ = _chunk_of_loop_py(plw, loops[0], "i")
-            if cv is not None:
-                obligations(res, "E1", "planner", FMT, "Formatter.format_op_mode_endecode_single_type", st.lineno, cv)
-            else:
-                res.unsure("E1: planner chunk size not found")
-        else:
-            res.unsure("E1: planner chunk loop not found")
-    except Inconclusive as e:
-        res.unsure(f"E1: planner: {e}")
+    for st_ in loop_sites(repo):
+        lang = st_["lang"]
+        if "error" in st_:
+            res.unsure(f"E1: {lang}: {st_['error']}")
+            continue
+        try:
+            lf = chunk_loop(st_["flow"], st_["fn"], "i")
+        except Inconclusive as e:
+            res.unsure(f"E1: {lang}: {e}")
+            continue
+        if not lf.ok:
+            res.unsure(f"E1: {lang} chunk loop not found: {lf.why}")
+            continue
+        seen = set()
+        for b in lf.bodies:
+            if b["c"] is None:
+                res.unsure(f"E1: {lang} chunk size not found")
+                continue
+            key = (show(b["c"]), tuple(sorted((op, show(d), tr) for op, d, tr in b["lits"])))
+            if key in seen:
+                continue
+            seen.add(key)
+            # the direction literal does not matter for the arithmetic: judge each distinct (chunk, numeric guards) once
+            under = " and ".join(g for g in b["guards"] if "is_encode" not in g)
+            obligations(res, "E1", lang, st_["file"], st_["fname"], lf.line, b["c"], facts_of(b), under)
     return res
